@@ -2,11 +2,12 @@
 (* Script generator of GC.tla's family (direction A): see GCTrace.tla for the semantics (direction B). *)
 EXTENDS Integers, Sequences, FiniteSets, TLC, Json
 
-CONSTANTS MaxVals, MaxSteps, MaxDepth
+CONSTANTS MaxVals, MaxSteps, MaxDepth, EmitAll
 
-Kinds == {"t", "tr", "u", "ur", "r"}   \* table+gc, table+gc resurrecting, userdata gc+release, same resurrecting, userdata release only
-HasGc(k) == k \in {"t", "tr", "u", "ur"}
-HasRel(k) == k \in {"u", "ur", "r"}
+Kinds == {"t", "tr", "u", "ur", "r", "uk"}   \* table+gc, table+gc resurrecting, userdata gc+release, same resurrecting, userdata release only,
+                                           \* uk: userdata gc+release whose finaliser exhausts the CPU limit of its context (only created inside one)
+HasGc(k) == k \in {"t", "tr", "u", "ur", "uk"}
+HasRel(k) == k \in {"u", "ur", "r", "uk"}
 Resurrects(k) == k \in {"tr", "ur"}
 
 -----------------------------------------------------------------------------
@@ -18,10 +19,10 @@ Emit(v) == PrintT(<<"@@", ToJson(v)>>)
 
 GInit == nvals = 0 /\ depth = 0 /\ n = 0 /\ hist = <<>>
 GStep(act, nv, d) == /\ nvals' = nv /\ depth' = d /\ n' = n + 1 /\ hist' = Append(hist, act)
-                     /\ Emit([h |-> hist'])
+                     /\ (IF EmitAll \/ n + 1 = MaxSteps THEN Emit([h |-> hist']) ELSE TRUE)
 GNext ==
   /\ n < MaxSteps
-  /\ \/ \E k \in Kinds : nvals < MaxVals /\ GStep([a |-> "mk", id |-> nvals + 1, kind |-> k], nvals + 1, depth)
+  /\ \/ \E k \in Kinds : nvals < MaxVals /\ (k = "uk" => depth > 0) /\ GStep([a |-> "mk", id |-> nvals + 1, kind |-> k], nvals + 1, depth)
      \/ \E i \in 1..nvals : GStep([a |-> "drop", id |-> i, kind |-> "-"], nvals, depth)
      \/ GStep([a |-> "collect", id |-> 0, kind |-> "-"], nvals, depth)
      \/ (depth < MaxDepth /\ GStep([a |-> "enter", id |-> 0, kind |-> "-"], nvals, depth + 1))
